@@ -169,11 +169,17 @@ def worker(ctx, job):
             # extractions are also run onto a destination that already exists (longer / same length / shorter than the entry,
             # other bytes): what the caller then holds at the destination must still be exactly the stored bytes
             dstates = [None]
-            if rk in ("copy", "hard_link", "reflink") and n <= 1025 and (klass == "pristine" or dname in dest_damages):
+            if rk in ("copy", "link", "reflink") and n <= 1025 and (klass == "pristine" or dname in dest_damages):
                 dstates += ["longer", "same-length", "shorter"]
+            if rk == "link" and os.path.isfile(cpath) and not os.path.islink(cpath):
+                # the destination already is a hard link to the content file (an earlier extraction): it shares whatever
+                # happened to that inode since
+                dstates += ["linked-to-content"]
             for buf, dstate in [(b_, d_) for b_ in bufs for d_ in dstates]:
                 fsutil.wipe(dest)
-                if dstate is not None:
+                if dstate == "linked-to-content":
+                    os.link(cpath, dest)
+                elif dstate is not None:
                     with open(dest, "wb") as fh_:
                         fh_.write(ref.gen({"longer": n + 37, "same-length": max(n, 1), "shorter": max(n - 1, 0)}[dstate], 77))
                 rep, delivered = retr.retrieve(srv, cache, name, rk, key=key, sri=sri, dest=dest, buf=buf or 1024)
@@ -199,7 +205,7 @@ def worker(ctx, job):
                                     {"engine": "seqx", "case": case, "reply": rep})
                     V.outcome(res, "%s:ok" % klass)
                 else:
-                    if klass in ("pristine", "symlink-identical") and rk != "reflink" and not (dstate is not None and rk == "hard_link"):
+                    if klass in ("pristine", "symlink-identical") and rk != "reflink" and not (dstate is not None and rk == "link"):
                         V.violation(res, "checked-read:%s:%s:%s" % (name, klass, classify(rep)), "retrieval of intact content failed: %s" % _short(rep),
                                     {"engine": "seqx", "case": case, "reply": rep})
                     V.outcome(res, "%s:err" % klass)
